@@ -3,12 +3,14 @@ a failed open leaves the handle cleared and the data source unclosed.
 
 Bounded-exhaustive enumeration: (mutated physical streams: every page x every mutation operator, 1 deviation from an intact base
 file; every truncation length; every CRC-fixed single-byte substitution in the header packets and the first two audio packets;
-chains of 1..8 links incl. zero-sample links and repeated serial numbers; crafted set-up headers) x (open mode) x (ALL call
+chains of 1..8 links incl. zero-sample links and repeated serial numbers; crafted set-up headers; valid multiplexed streams whose
+links open with 2..65 (thorough: ..258) BOS pages, pylib/c03_mux.py) x (open mode) x (ALL call
 sequences up to depth 2 (3 thorough) over a public-API alphabet), each executed on the REAL library under ASan + UBSan-subset with a
 per-case CPU watchdog (harness/c03_extra.c).  Streams are mutated in Python with the framework's independent Ogg page writer."""
 import os, sys, json, time, itertools, hashlib, collections
 import vlib, zoo
 import c03_lib as L
+import c03_mux as MUX
 from vlib import Page
 
 PID = 'C03'
@@ -334,17 +336,64 @@ def run(tier):
             for s in ([('x0',), ('rf4096',), ('ps%500',)] if hangs else
                       [('x0',), ('rf4096',), ('ri64',), ('PS%500',), ('XL0',), ('XR0',), ('rf4096', 'RS%500'), ('rf4096', 'TS%500'), ('h1', 'rf4096')]):
                 add_case('G', fi, mode, s, ('crafted', name))
-    first_pass = len(cases)
+    n_pass1 = len(cases)
+
+    # ---------------------------------------------------------------- N. links that open with MANY BOS pages (valid multiplexed streams)
+    # A Vorbis stream grouped with F foreign logical streams (own serial numbers, correct CRCs and page sequence numbers, non-Vorbis
+    # payloads; optionally one of them a second Vorbis stream): F x position of the Vorbis BOS page in the group x position of the link
+    # in a 1..3-link chain x {foreign streams end with their BOS page | BOS+EOS page | go on with data pages interleaved with the audio}.
+    # Every file runs the sentinel sequence (all queries for every link + read through) on a seekable handle first; the other open modes
+    # and sequences (every seek kind, every _lap kind, halfrate, crosslap, link-boundary reads, clear) run on every file whose sentinel
+    # case came back (a crash/hang of the sentinel is reported; piling further crashes of the same file on top of it only costs time).
+    WD = 2          # per-case CPU watchdog (s); ordinary cases take 0.2-20 ms
+    t_mux = time.time()
+    mux_recs = MUX.grid(tier)
+    mux_files = []       # (file index, recipe)
+    mux_selfcheck = None
+    for rec in mux_recs:
+        if DEV and 'N' not in DEV.split(','):
+            break
+        blob, _groups = MUX.build(rec, bases['B1'][1])
+        if mux_selfcheck is None and (len(mux_files) % 17 == 0 or rec['F'] >= 64):
+            mux_selfcheck = MUX.self_check(blob, rec)
+        fi, new = F.add(blob, rec)
+        if new:
+            mux_files.append((fi, rec))
+        else:
+            stats['mux_duplicate_content'] += 1
+    chk.guard(mux_selfcheck is None, f'generated multiplexed files re-parse as well-formed grouped Ogg streams (CRC, sequence numbers, BOS groups): {mux_selfcheck}')
+    for fi, rec in mux_files:
+        add_case('N', fi, 's', MUX.SENTINEL, ('mux', f"F{rec['F']}"))
+    n_sent = len(cases)
     lf = F.listfile()
     stats['files'] = len(F.paths)
+    # phase N runs first and without the deadline: it is small and its vacuity guard is binding
+    resN = L.run_batches(exe, lf, cases[n_pass1:n_sent], timeout_s=WD, chunk=30, tag='c03n')
+    sent_ok = {m['file'] for m, r in zip(meta[n_pass1:n_sent], resN) if r and r.startswith('O=')}
+    for fi, rec in mux_files:
+        if fi not in sent_ok:
+            stats['mux_files_not_run_further_after_sentinel_crash'] += 1
+            continue
+        for mode in 'sntup':
+            if mode != 's':
+                add_case('N', fi, mode, MUX.SENTINEL if mode != 'p' else MUX.PART_SEQ, ('mux', f"F{rec['F']}"))
+            if mode != 'p':
+                for sq in (MUX.SEQS_QUICK if tier == 'quick' else MUX.SEQS_THOROUGH):
+                    add_case('N', fi, mode, sq, ('mux', f"F{rec['F']}"))
+    first_pass = len(cases)
+    resN += L.run_batches(exe, lf, cases[n_sent:first_pass], timeout_s=WD, chunk=100, tag='c03n2')
+    stats['mux_phase_wall_s'] = round(time.time() - t_mux, 1)
+    stage_wall = {'build_and_generate_pass1': round(t_mux - t0, 1), 'phase_N_generate_and_run': stats['mux_phase_wall_s']}
+    t_st = time.time()
 
     # ================================================================= run pass 1
-    WD = 2          # per-case CPU watchdog (s); ordinary cases take 0.2-20 ms
-    res = L.run_batches(exe, lf, cases, timeout_s=WD, chunk=300, tag='c03a', deadline=chk.deadline)
+    res = L.run_batches(exe, lf, cases[:n_pass1], timeout_s=WD, chunk=300, tag='c03a', deadline=chk.deadline) + resN
 
     # ---------------------------------------------------------------- A2. all depth-2 sequences on every handle of pass A1
     # A failed open leaves an all-zero handle (judged by the open_fail_not_zeroed flag on every case): sequences on it cannot depend
     # on the file, so depth 2 runs on one representative failed file per (base, mode, open code).
+    stage_wall['run_pass1'] = round(time.time() - t_st, 1)
+    t_st = time.time()
     open_rc = {}
     for m, r in zip(meta[:nA1], res[:nA1]):
         if not m['ops'] and r and r.startswith('O='):
@@ -407,8 +456,12 @@ def run(tier):
         if time.time() > chk.deadline - 600:
             incomplete.append('pair mutations cut by the generation deadline')
         lf = F.listfile()
+    stage_wall['generate_pass2'] = round(time.time() - t_st, 1)
+    t_st = time.time()
     res2 = L.run_batches(exe, lf, cases[first_pass:], timeout_s=WD, chunk=400, tag='c03b', deadline=chk.deadline)
     res += res2
+    stage_wall['run_pass2'] = round(time.time() - t_st, 1)
+    t_st = time.time()
 
     # ---------------------------------------------------------------- M. very many links (thorough): open recursion depth = number of links
     many = None
@@ -448,12 +501,16 @@ def run(tier):
     stats['timeout_classes'] = {k: len(v) for k, v in by_class.items()}
 
     # ================================================================= judge
+    stage_wall['many_links_and_timeout_reruns'] = round(time.time() - t_st, 1)
+    t_st = time.time()
     classes = set()
     open_codes = collections.Counter()
     op_codes = collections.Counter()
     guards = collections.Counter()
     maxhop = 0
     samples = []
+    mux, mux_open, mux_ok5 = collections.Counter(), collections.Counter(), collections.Counter()
+    mux_sizes, mux_sizes_ok, mux_classes = set(), set(), set()
     for k, m in enumerate(meta):
         d = L.parse_result(res[k])
         chk.cov['evaluations'] += 1
@@ -487,8 +544,6 @@ def run(tier):
                 guards['crash'] += 1
                 continue
         o = d['O']
-        open_codes[(m['mode'], o)] += 1
-        maxhop = max(maxhop, d['B'])
         # flags: failed open => zeroed handle and unclosed source; clear => close exactly once iff open succeeded
         for fl in d['F']:
             chk.violation('flag_' + fl, f'{fl}: {describe(rec, m)}', replay)
@@ -501,11 +556,30 @@ def run(tier):
             why = judge_op(op, tok, m['mode'], o == 0) if seekable_doc else None
             s = sig_tok(op, tok)
             sig.append(s)
-            op_codes[(op[:2] if op[0] != 'x' else 'x', s)] += 1
+            if m['phase'] != 'N':
+                op_codes[(op[:2] if op[0] != 'x' else 'x', s)] += 1
             if why:
                 chk.violation('rc_' + why.replace(' ', '_'), f'{why} at op #{opi} ({op}): {describe(rec, m)} R={d["R"]}', replay)
-            if o == 0 and s in ('HOLE', 'EBADLINK', 'EOF'):
+            if o == 0 and s in ('HOLE', 'EBADLINK', 'EOF') and m['phase'] != 'N':
                 guards['opened_then_' + s] += 1
+        if m['phase'] == 'N':
+            # valid multiplexed streams: same oracle as everywhere (judged above); counted apart so that none of the older
+            # vacuity guards / distinct-class counts gets easier to meet
+            nb = rec['F'] + 1
+            mux['cases'] += 1
+            mux_sizes.add(nb)
+            mux_open[f"{m['mode']}:{NAME.get(o, o)}"] += 1
+            if o == 0:
+                mux['opens_ok'] += 1
+                mux_sizes_ok.add(nb)
+                if nb >= 5:
+                    mux_ok5[m['mode']] += 1
+                if any(x not in ('+', '0') and not x.startswith('q') for x in sig):
+                    mux['opened_then_error_code'] += 1
+            mux_classes.add((nb >= 5, rec['cont'], rec['sv'], m['mode'], o, tuple(sig)))
+            continue
+        maxhop = max(maxhop, d['B'])
+        open_codes[(m['mode'], o)] += 1
         if o == 0 and rec.get('op') != 'intact':
             guards['mutated_opened_ok_' + ('stream' if m['mode'] in 'nu' else 'seek')] += 1
         cls = (rec.get('op', rec.get('base')), m['mode'], o, tuple(sig))
@@ -513,6 +587,8 @@ def run(tier):
             samples.append({'recipe': rec, 'mode': m['mode'], 'ops': ops_run, 'open': o, 'results': d['R'][:4]})
         classes.add(cls)
 
+    stage_wall['judge'] = round(time.time() - t_st, 1)
+    stats['wall_s_by_stage'] = stage_wall       # diagnostic only (budgeting); nothing is decided by it
     seen_keys = set()
     for key, desc, rp in chk.violations:
         if key not in seen_keys:
@@ -540,6 +616,23 @@ def run(tier):
         'page_operators': L.PAGE_OPS, 'timeouts_first_pass': len(tmo), 'timeout_cases_confirmed_nontermination': len(confirmed_hang),
         'not_exhaustive_in': incomplete, 'stats': dict(stats), 'guard_counts': dict(guards),
     })
+    mux_modes = 'sntu'
+    mux_on = not (DEV and 'N' not in DEV.split(','))
+    chk.cov['bos_group_phase'] = {
+        'files': len(mux_files), 'recipes_enumerated': len(mux_recs), 'cases_executed': mux['cases'], 'opens_succeeded': mux['opens_ok'],
+        'opened_then_some_call_returned_an_error_code': mux['opened_then_error_code'],
+        'bos_group_sizes_executed': sorted(mux_sizes), 'distinct_bos_group_sizes_executed': len(mux_sizes),
+        'bos_group_sizes_opened_ok': sorted(mux_sizes_ok), 'distinct_bos_group_sizes_opened_ok': len(mux_sizes_ok),
+        'opens_ok_with_5_or_more_bos_pages_by_mode': dict(mux_ok5), 'open_codes': dict(sorted(mux_open.items())),
+        'distinct_outcome_classes': len(mux_classes), 'foreign_stream_counts': sorted({r['F'] for r in mux_recs}),
+        'sequences': [list(MUX.SENTINEL), list(MUX.PART_SEQ)] + [list(x) for x in (MUX.SEQS_QUICK if tier == 'quick' else MUX.SEQS_THOROUGH)],
+        'rule': 'phase N (valid multiplexed streams, links opening with F+1 BOS pages) is counted here only; it does not feed distinct_nontrivial, open_codes, '
+                'call_outcomes or any of the older guards',
+    }
+    # binding (also in a run cut by its deadline: phase N runs first and is never cut): the family must really get past the BOS group
+    mux_guard = all(mux_ok5[mo] > 0 for mo in mux_modes + 'p') and len(mux_sizes_ok) >= 8
+    if mux_on:
+        chk.guard(mux_guard, f'links opening with >= 5 BOS pages opened successfully in every open mode ({dict(mux_ok5)}) and >= 8 distinct BOS-group sizes opened ({sorted(mux_sizes_ok)})')
     skipped = {k: v for k, v in stats.items() if k.startswith('skipped_by_deadline_')}
     if skipped or DEV:
         chk.cov['exhaustive'] = False
@@ -566,7 +659,12 @@ def run(tier):
         kc = collections.Counter(k for k, _, _ in chk.violations)
         for k, n in kc.most_common():
             print(f'  [{n}] {k}: ' + next(d for kk, d, _ in chk.violations if kk == k)[:600], file=sys.stderr)
-    return chk.finish()
+    rc = chk.finish()
+    if rc == 0 and mux_on and not mux_guard:
+        # finish() downgrades unmet guards of a run cut by its deadline; this one does not depend on the deadline
+        print(f'BROKEN-CHECK property={PID} vacuity guard failed: no successful open of a link with >= 5 BOS pages in every open mode: {dict(mux_ok5)}', file=sys.stderr)
+        rc = 2
+    return rc
 
 
 def many_links_case(n):
@@ -718,8 +816,14 @@ def replay(path):
         open(fp, 'wb').write(bytes.fromhex(r['file_hex']))
     else:
         rec = r['recipe']
-        data, pages = bases[rec['base']]
-        if rec['op'] == 'intact':
+        if rec.get('base') == 'mux':
+            open(fp, 'wb').write(MUX.build(rec, bases['B1'][1])[0])
+            data, pages, rec = None, None, None
+        else:
+            data, pages = bases[rec['base']]
+        if rec is None:
+            pass
+        elif rec['op'] == 'intact':
             open(fp, 'wb').write(data)
             rec = None
         elif rec['op'] == 'hole':
